@@ -38,6 +38,10 @@ func genStat(t *rapid.T) StatCase {
 	c.Parties = rapid.IntRange(1, 8).Draw(t, "parties")
 	c.CRS = rapid.Uint64().Draw(t, "crs")
 	c.Shallow = true
+	if rapid.Bool().Draw(t, "keepBuffers") {
+		c.Receiver = 2
+	}
+	c.DirtyOut = rapid.Bool().Draw(t, "dirtyOut")
 	c.Kind = []string{"pk", "evk", "gal", "rlk"}[rapid.IntRange(0, 3).Draw(t, "kind")]
 	if c.Kind != "pk" {
 		c.Key = genKey(t, c.Params, "key")
@@ -166,6 +170,31 @@ func runStat(c StatCase, rec *h.Rec) error {
 		return nil
 	}
 
+	// with Receiver != 0 every party keeps ONE share buffer per protocol (and one ephemeral key) for all repetitions:
+	// from the second repetition on GenShare writes into an object holding the previous share (party 0: the previous aggregate)
+	keep := c.Receiver != 0
+	pkSh := make([]multiparty.PublicKeyGenShare, n)
+	evkSh := make([]multiparty.EvaluationKeyGenShare, n)
+	galSh := make([]multiparty.GaloisKeyGenShare, n)
+	r1Sh := make([]multiparty.RelinearizationKeyGenShare, n)
+	r2Sh := make([]multiparty.RelinearizationKeyGenShare, n)
+	ephSh := make([]*rlwe.SecretKey, n)
+	if keep {
+		for i := 0; i < n; i++ {
+			switch c.Kind {
+			case "pk":
+				pkSh[i] = pkP[i].AllocateShare()
+			case "evk":
+				evkSh[i] = evkP[i].AllocateShare(ek)
+			case "gal":
+				galSh[i] = galP[i].AllocateShare(ek)
+			case "rlk":
+				ephSh[i], r1Sh[i], r2Sh[i] = rlkP[i].AllocateShare(ek)
+			}
+		}
+	}
+	junk := c.junk()
+
 	var sOutGal *rlwe.SecretKey
 	if c.Kind == "gal" {
 		gInv := new(big.Int).ModInverse(h.BU(c.GalEl), h.BU(c.Params.NthRoot())).Uint64()
@@ -217,7 +246,10 @@ func runStat(c StatCase, rec *h.Rec) error {
 				if err := sameCRP(rep, i, []ringqp.Poly{crp.Value}, []ringqp.Poly{crp0.Value}); err != nil {
 					return err
 				}
-				sh := pkP[i].AllocateShare()
+				sh := pkSh[i]
+				if !keep {
+					sh = pkP[i].AllocateShare()
+				}
 				pkP[i].GenShare(w.sks[i], crp, &sh)
 				if i == 0 {
 					agg = sh
@@ -226,6 +258,10 @@ func runStat(c StatCase, rec *h.Rec) error {
 				}
 			}
 			pk := rlwe.NewPublicKey(params)
+			if c.DirtyOut {
+				dirtyQP(pk.Value[0], c.Params, junk)
+				dirtyQP(pk.Value[1], c.Params, junk)
+			}
 			pkP[0].GenPublicKey(agg, crp0, pk)
 			if _, err := pkCheckAcc(params, pk, idealIn, nB, &acc); err != nil {
 				return h.Failf("C14:STAT:pk:not-a-key-of-the-ideal-secret", "repetition %d with re-used protocol instances: %v", rep, err)
@@ -241,7 +277,10 @@ func runStat(c StatCase, rec *h.Rec) error {
 				if err := sameCRP(rep, i, flatMatrix(crp.Value), flatMatrix(crp0.Value)); err != nil {
 					return err
 				}
-				sh := evkP[i].AllocateShare(ek)
+				sh := evkSh[i]
+				if !keep {
+					sh = evkP[i].AllocateShare(ek)
+				}
 				if err := evkP[i].GenShare(w.sks[i], skOuts[i], crp, &sh); err != nil {
 					return h.Failf("C14:EVK:GenShare-error", "repetition %d party %d: %v", rep, i, err)
 				}
@@ -252,6 +291,9 @@ func runStat(c StatCase, rec *h.Rec) error {
 				}
 			}
 			evk := rlwe.NewEvaluationKey(params, ek)
+			if c.DirtyOut {
+				dirtyGadget(&evk.GadgetCiphertext, c.Params, junk)
+			}
 			if err := evkP[0].GenEvaluationKey(agg, crp0, evk); err != nil {
 				return h.Failf("C14:GenEvaluationKey:error", "repetition %d: %v", rep, err)
 			}
@@ -269,7 +311,10 @@ func runStat(c StatCase, rec *h.Rec) error {
 				if err := sameCRP(rep, i, flatMatrix(crp.Value), flatMatrix(crp0.Value)); err != nil {
 					return err
 				}
-				sh := galP[i].AllocateShare(ek)
+				sh := galSh[i]
+				if !keep {
+					sh = galP[i].AllocateShare(ek)
+				}
 				if err := galP[i].GenShare(w.sks[i], c.GalEl, crp, &sh); err != nil {
 					return h.Failf("C14:GKG:GenShare-error", "repetition %d party %d: %v", rep, i, err)
 				}
@@ -280,6 +325,9 @@ func runStat(c StatCase, rec *h.Rec) error {
 				}
 			}
 			gk := rlwe.NewGaloisKey(params, ek)
+			if c.DirtyOut {
+				dirtyGadget(&gk.GadgetCiphertext, c.Params, junk)
+			}
 			if err := galP[0].GenGaloisKey(agg, crp0, gk); err != nil {
 				return h.Failf("C14:GenEvaluationKey:error", "repetition %d: %v", rep, err)
 			}
@@ -294,7 +342,11 @@ func runStat(c StatCase, rec *h.Rec) error {
 			for i := 0; i < n; i++ {
 				crp := rlkP[i].SampleCRP(crs[i], ek)
 				var r1 multiparty.RelinearizationKeyGenShare
-				eph[i], r1, r2[i] = rlkP[i].AllocateShare(ek)
+				if keep {
+					eph[i], r1, r2[i] = ephSh[i], r1Sh[i], r2Sh[i]
+				} else {
+					eph[i], r1, r2[i] = rlkP[i].AllocateShare(ek)
+				}
 				rlkP[i].GenShareRoundOne(w.sks[i], crp, eph[i], &r1)
 				params.RingQP().AtLevel(c.Key.LevelQ, c.Key.LevelP).Add(uIdeal.Value, eph[i].Value, uIdeal.Value)
 				if i == 0 {
@@ -316,6 +368,9 @@ func runStat(c StatCase, rec *h.Rec) error {
 				}
 			}
 			rlk := rlwe.NewRelinearizationKey(params, ek)
+			if c.DirtyOut {
+				dirtyGadget(&rlk.GadgetCiphertext, c.Params, junk)
+			}
 			if err := callErr(rlkP[0].GenRelinearizationKey, acc1, acc2, rlk); err != nil {
 				return h.Failf("C14:RKG:GenRelinearizationKey-error", "repetition %d: %v", rep, err)
 			}
@@ -365,6 +420,7 @@ func runStat(c StatCase, rec *h.Rec) error {
 	}
 
 	rec.Class(c.Kind)
+	rec.Class(c.receiverClass())
 	rec.Class(nClass(n))
 	rec.Class(ringClass(c.Params))
 	rec.Class("xe=" + c.Params.Xe.Kind)
@@ -373,7 +429,7 @@ func runStat(c StatCase, rec *h.Rec) error {
 	}
 	if judged {
 		rec.Class("judged")
-		rec.NonTrivial(fmt.Sprintf("stat|%s|%s|%s|xe=%s%v|%s|reps=%d", c.Kind, nClass(n), ringClass(c.Params), c.Params.Xe.Kind, c.Params.Xe.Sigma, keyClass(c.Params, c.Key), reps))
+		rec.NonTrivial(fmt.Sprintf("stat|%s|%s|%s|xe=%s%v|%s|reps=%d", c.Kind, nClass(n), ringClass(c.Params), c.Params.Xe.Kind, c.Params.Xe.Sigma, keyClass(c.Params, c.Key), reps) + "|" + c.receiverClass())
 	} else {
 		rec.Class("unjudged:" + reason)
 	}
